@@ -34,7 +34,7 @@ def site_forms(arch, rng, per_mnemonic):
         sites = out
     return sites
 
-def variants(stmt_with_sym, v, chained):
+def variants(stmt_with_sym, v, chained, org=None):
     if chained == 2:
         # a diamond: vv2 is reached twice through vv3 and vv4 (and twice inside vv4)
         defs = "@defl vv1, vv3 + vv4\n@defl vv3, vv2\n@defl vv4, vv2 - vv2\n@defn vv2, %d\n" % v
@@ -42,7 +42,7 @@ def variants(stmt_with_sym, v, chained):
         defs = "@defl vv1, vv2 + 1\n@defn vv2, %d\n" % (v - 1)
     else:
         defs = "@defn vv1, %d\n" % v
-    head = "@org %d\n" % ORG
+    head = "@org %d\n" % (ORG if org is None else org)
     return (head + defs + stmt_with_sym + "\n", head + stmt_with_sym + "\n" + defs, head + stmt_with_sym + "\n")
 
 def run(ck):
@@ -79,6 +79,31 @@ def run(ck):
         for v in VALUES + [7, 8]:
             for ch in (False, True, 2):
                 triples.append(("z80", stmt, v, ch) + variants(stmt, v, ch))
+    # the address after a deferred item: whatever follows it (a label, @here, an alignment) sees the same address
+    # whether the value was known or not
+    for stmt in ["@db vv1", "@db 1, vv1, 2", "@db vv1, vv1", "@db < vv1, \"s\", > vv1", "@dw vv1", "@dw 1, vv1", "@ds 3, vv1",
+                 "@db vv1 + 1", "@assert vv1"]:
+        for tail in ["@dw @here", "after1:\n@dw after1", "@align 8\n@db < @here", "@defn hh1, @here\n@db hh1 & 255, vv1 & 255"]:
+            for v in (5, 0x42):
+                for ch in (False, True):
+                    st = stmt + "\n" + tail
+                    triples.append(("z80", st, v, ch) + variants(st, v, ch))
+    for arch in ("z80", "sm83"):
+        sites = site_forms(arch, rng, None if thorough else 1)
+        for f, a, b in sites:
+            st = " " + f[:a] + "vv1" + f[b:] + "\n@dw @here"
+            if f.split()[0] in ("jr", "djnz"):
+                continue
+            triples.append((arch, st, 5, False) + variants(st, 5, False))
+    # the same items placed so that they end exactly at the top of memory
+    for arch, stmt, ln in [("z80", "@dw vv1", 2), ("z80", "@db vv1", 1), ("z80", "@db 1, vv1, 2", 3), ("z80", "@dw vv1, vv1", 4),
+                           ("z80", "@ds 3, vv1", 3), ("z80", " ld a, vv1", 2), ("z80", " ld hl, vv1", 3), ("z80", " jp vv1", 3),
+                           ("z80", " ld (ix+1), vv1", 4), ("sm83", " ld a, vv1", 2), ("sm83", " jp vv1", 3), ("sm83", "@dw vv1", 2),
+                           ("6502", " lda #vv1", 2), ("6502", " jmp vv1", 3), ("6502", "@dw vv1", 2), ("6502", "@dw 1, 2, vv1", 6)]:
+        for org in (0x10000 - ln, 0x10000 - ln + 1, 0x10000 - ln - 1):
+            for v in (5, 0x42):
+                for ch in (False, True):
+                    triples.append((arch, stmt, v, ch) + variants(stmt, v, ch, org=org))
     # sequences: several deferred items in one program (links are resolved in order; a passing deferred @assert, a
     # fill, an operand must not disturb the ones after it), some ending in a failing deferred @assert / range error
     SEQ = {"z80": [" ld a, vv1", " ld hl, vv1", " jp vv1", " ld (ix+1), vv1"], "sm83": [" ld a, vv1", " ld hl, vv1", " jp vv1"],
